@@ -21,6 +21,7 @@
 -/
 import BufrModel.Lemmas.ScriptQuery
 import BufrModel.Lemmas.Query
+import BufrModel.Lemmas.QueryCompressed
 namespace Bufr.Script
 open Bufr.Query Bufr.PathLang
 
@@ -61,28 +62,33 @@ theorem C18_query_level0 (r : QResult) :
 theorem C18_query_answers_in_selector_order (m : QMsg) (p : Path) (r : QResult) (idxs : List Nat)
     (hq : query m p = .ok r) (hs : subsetIndices p.subset m.outs.length = .ok idxs) :
     mapIdx (subsetAnswer m p.comps) idxs = .ok r.subsets := by
-  unfold query at hq
-  rw [hs] at hq
-  simp only at hq
   cases hc : m.compressed with
   | true =>
-    simp only [hc, if_true] at hq
-    split at hq
-    · next t o0 ht ho =>
+    cases idxs with
+    | nil =>
+      -- no subset selected: the empty result, the path is not looked at (fix F16c)
+      rw [Bufr.C16.query_compressed_empty m p hc hs] at hq
+      cases hq
+      rfl
+    | cons i0 is =>
+      rw [Bufr.C16.query_compressed_cons m p i0 is hc hs] at hq
+      unfold Bufr.C16.compressedRun at hq
       split at hq
-      · cases hq
-      · next hits hh =>
+      · next t o0 ht ho =>
         split at hq
         · cases hq
-        · next rs hrs =>
-          cases hq
-          rw [← hrs]
-          apply mapIdx_congr'
-          intro i _
-          simp only [subsetAnswer, hc, if_true, ht, ho, hh]
-    · cases hq
+        · next hits hh =>
+          split at hq
+          · cases hq
+          · next rs hrs =>
+            cases hq
+            rw [← hrs]
+            apply mapIdx_congr'
+            intro i _
+            simp only [subsetAnswer, hc, if_true, ht, ho, hh]
+      · cases hq
   | false =>
-    simp only [hc, Bool.false_eq_true, if_false] at hq
+    rw [Bufr.C16.query_uncompressed m p idxs hc hs] at hq
     split at hq
     · cases hq
     · next rs hrs =>
